@@ -54,7 +54,9 @@ def _scenario(draw, tier):
             tspec.update(s=[0.02] * d, steep=True)
     temps = [draw(st.sampled_from([1.0, 1.0, 1.0, 2.0]))]
     for _ in range(n - 1):
-        temps.append(round(temps[-1] * draw(st.sampled_from([1.3, 2.0, 3.0, 5.0] if n <= 6 else [1.2, 1.5, 2.0])), 4))
+        # (factor 1.0: two replicas at the same temperature - accepted by the library without a warning; their exchange
+        # probability is exp(0) = 1)
+        temps.append(round(temps[-1] * draw(st.sampled_from([1.3, 2.0, 3.0, 5.0, 1.0] if n <= 6 else [1.2, 1.5, 2.0, 1.0])), 4))
     if n >= 2 and draw(st.integers(0, 3)) == 0:
         # the library only warns about a ladder that is not increasing; the exchange rule must hold for it too
         temps = draw(st.permutations(temps))
